@@ -105,6 +105,7 @@ type caseIn struct {
 	// all operations merged) instead of CSched
 	Merge bool    `json:"merge,omitempty"`
 	Race  *raceIn `json:"race,omitempty"`
+	Reg   *regIn  `json:"registry,omitempty"` // a case of the per-topic writer registry (registry.go)
 }
 
 // ---------- observations ----------
@@ -1293,6 +1294,13 @@ func genBig(r *gen.Rand) caseIn {
 
 func sizeOf(c caseIn) int {
 	n := 0
+	if c.Reg != nil {
+		for _, g := range c.Reg.Groups {
+			for _, pr := range g.Prods {
+				n += 1 + pr.N
+			}
+		}
+	}
 	for _, o := range c.Ops {
 		n += 1 + len(o.Burst)
 		if o.Full != nil {
@@ -1347,6 +1355,8 @@ func runChild(inFile, outFile string) {
 		var c gen.Case
 		if in.Race != nil {
 			c = runRace(*in.Race)
+		} else if in.Reg != nil {
+			c = runRegistry(*in.Reg)
 		} else {
 			if stuckCases >= 5 {
 				// enough evidence; every further case would cost the settle timeout again
@@ -1506,6 +1516,12 @@ func main() {
 		for i := 0; i < nBig; i++ {
 			gens = append(gens, genBig(rBig))
 		}
+		// the per-topic writer registry: concurrent first use of a topic
+		nReg := o.N / 10
+		rReg := r.Fork()
+		for i := 0; i < nReg; i++ {
+			gens = append(gens, genReg(rReg))
+		}
 		// small cases first: the first failing case the driver reports is then a small one
 		sort.SliceStable(gens, func(a, b int) bool { return sizeOf(gens[a]) < sizeOf(gens[b]) })
 		// the case files are contiguous slices of the case list: deal the sorted cases out so that
@@ -1546,6 +1562,26 @@ func main() {
 			stats[fmt.Sprintf("race%d_trials", in.Race.Mode)] += m["trials"]
 			stats[fmt.Sprintf("race%d_hangs", in.Race.Mode)] += m["hangs"]
 			stats[fmt.Sprintf("race%d_lost", in.Race.Mode)] += m["lost"]
+			continue
+		}
+		if in.Reg != nil {
+			stats["registry_cases"]++
+			topics := map[int]bool{}
+			for _, g := range in.Reg.Groups {
+				stats["registry_groups"]++
+				if g.Hold {
+					stats["registry_groups_behind_held_lock"]++
+				}
+				if g.ClearAfter {
+					stats["registry_clear_between_groups"]++
+				}
+				stats["registry_first_uses"] += len(g.Prods)
+				for _, pr := range g.Prods {
+					topics[pr.Topic] = true
+					stats["events"] += pr.N
+				}
+			}
+			stats[fmt.Sprintf("registry_topics_%d", len(topics))]++
 			continue
 		}
 		// measured input distribution
@@ -1598,7 +1634,7 @@ func main() {
 		stats[fmt.Sprintf("producers_%d", len(prods))]++
 	}
 	extra := map[string]any{"stats": stats, "leaked_waiting_writers": leaked}
-	if err := gen.WriteCases(o, "C19", "From Verif Require Import Common EventWriter.", "c19_case", "report19", cases, extra); err != nil {
+	if err := gen.WriteCases(o, "C19", "From Verif Require Import Common EventRegistry EventWriter.", "c19_case", "report19", cases, extra); err != nil {
 		panic(err)
 	}
 }
